@@ -161,7 +161,7 @@ bool cjet_is_word_sequence_valid(struct cjet_utf8_checker *c, const uint32_t *se
 			if (((tmp & FAST_ZONE21) == 0x80C0) && ((tmp & 0x1F) > 0x01)) continue;
 			if (((tmp & FAST_ZONE22) == 0x80C000) && ((tmp & 0x1F00) > 0x0100)) continue;
 			if (((tmp & FAST_ZONE23) == 0x80C00000) && ((tmp & 0x1F0000) > 0x010000)) continue;
-			if (((tmp & FAST_ZONE24) == 0x80C080C0) && ((tmp & 0x1F001F) > 0x010001)) continue;
+			if (((tmp & FAST_ZONE24) == 0x80C080C0) && ((tmp & 0x1F) > 0x01) && ((tmp & 0x1F0000) > 0x010000)) continue;
 		}
 		for (size_t j = 0; j < sizeof(tmp); j++) {
 			tmp = *(sequence + i);
@@ -188,7 +188,9 @@ bool cjet_is_word64_sequence_valid(struct cjet_utf8_checker *c, const uint64_t *
 		tmp = *(sequence + i);
 		if (c->next_byte == 1) {
 			if (!(tmp & FAST_ZONE1_64)) continue;
-			if(((tmp & FAST_ZONE2_64) == 0x80C080C080C080C0) && ((tmp & 0x001F001F001F001F) > 0x0001000100010001)) continue;
+			if (((tmp & FAST_ZONE2_64) == 0x80C080C080C080C0) &&
+			    ((tmp & 0x1F) > 0x01) && ((tmp & 0x1F0000) > 0x010000) &&
+			    ((tmp & 0x1F00000000) > 0x0100000000) && ((tmp & 0x1F000000000000) > 0x01000000000000)) continue;
 		}
 		for (uint64_t j = 0; j < sizeof(tmp); j++) {
 			tmp = *(sequence + i);
